@@ -238,6 +238,9 @@ def interior (c : Config) : Bool :=
   | .tsne => Rat.strictlyBetween 0 c.perp (((c.N : Rat) - 1) / 3) && decide (1 ≤ tsne_K c.perp || c.theta = 0)
   | .ms => Rat.strictlyBetween 0 c.squish 1
   | .fa => decide (0 < c.faEps) && decide (0 < c.maxIter)
+  -- heat / diffusion kernels: the width is commensurate with the generic data class (coordinates in (-4, 4), squared
+  -- distances ≤ 64 D), so that exp(-dist²/width) stays far above the rounding unit (a float-level condition)
+  | .dm | .le | .lpp => decide (64 * (c.D : Rat) ≤ 40 * c.width)
   | _ => true
 
 /-- the finiteness clause of the property applies -/
